@@ -1,0 +1,22 @@
+//go:build verif
+
+package ech
+
+import (
+	"context"
+	"time"
+)
+
+// VerifSetTimeNow replaces the package clock used by the resolver cache.
+// It returns a function that restores the previous clock.
+func VerifSetTimeNow(f func() time.Time) (restore func()) {
+	old := timeNow
+	timeNow = f
+	return func() { timeNow = old }
+}
+
+// VerifContextWithResult returns a context that carries a fixed resolution
+// result for host, the same way Transport.RoundTrip hands one to the Dialer.
+func VerifContextWithResult(ctx context.Context, host string, result ResolveResult) context.Context {
+	return context.WithValue(ctx, transportResolverKey, &transportResolver{host: host, result: result})
+}
